@@ -96,3 +96,47 @@ package metric
 //@     invariant[removed-so-far] 0 <= i && (amountToRemove > 0 ==> i <= amountToRemove) && (amountToRemove <= 0 ==> i == 0) && gRmN == n0 + 2 * i && amountToRemove == len(files) - d.maxFileAmount + 1 && gListedLen == len(files)
 //@     invariant[which] forall k Int :: 0 <= k && k < i ==> sel(gRmName, n0 + 2 * k) == files[k]
 //@     invariant[listing] forall k Int :: 0 <= k && k < len(files) ==> sel(gListed, k) == files[k]
+
+// ---- the writer's ordering logic over an abstract file. What reaches the two files is string formatting and buffered
+// I/O (assumed helpers that record *that* they were asked to write, in ghost state); what is proved of Write, for every
+// timestamp, writer state and item list: a batch of a second older than the latest accepted one writes nothing; the
+// lines of a batch are handed to the file at most once; when the batch opens a new second, an index entry for exactly
+// that second has been issued before its lines (the searcher finds lines only through the index) and none is issued in
+// between for a batch of the same second; the latest accepted second never goes back and becomes the batch's second
+// when the batch was written.
+//@ ghost var gIdxN Int
+//@ ghost var gIdxSec (Array Int Int)
+//@ ghost var gLinesN Int
+//@ ghost var gLinesIdxSeen (Array Int Int)
+//@ func (d *DefaultMetricLogWriter) writeIndex(time, offset) err
+//@   assumed
+//@   ensures gIdxN == old(gIdxN) + 1 && gIdxSec == upd(old(gIdxSec), old(gIdxN), time)
+//@   modifies gIdxN, gIdxSec
+//@ func (d *DefaultMetricLogWriter) writeItemsAndFlush(items) err
+//@   assumed
+//@   ensures gLinesN == old(gLinesN) + 1 && gLinesIdxSeen == upd(old(gLinesIdxSeen), old(gLinesN), gIdxN)
+//@   modifies gLinesN, gLinesIdxSeen
+// rolling closes the current pair of files, removes the oldest ones and opens (and indexes the head of) the next pair:
+// it may issue further index entries, never lines, and does not touch the entries issued before
+//@ func (d *DefaultMetricLogWriter) rollToNextFile(time) err
+//@   assumed
+//@   ensures gIdxN >= old(gIdxN) && (forall j Int :: j < old(gIdxN) ==> sel(gIdxSec, j) == old(sel(gIdxSec, j)))
+//@   modifies gIdxN, gIdxSec, gRmN, gRmName, gListedLen, gListed, d.curMetricFile, d.curMetricIdxFile, d.metricOut, d.idxOut
+//@ func (d *DefaultMetricLogWriter) rollFileIfSizeExceeded(time) err
+//@   assumed
+//@   ensures gIdxN >= old(gIdxN) && (forall j Int :: j < old(gIdxN) ==> sel(gIdxSec, j) == old(sel(gIdxSec, j)))
+//@   modifies gIdxN, gIdxSec, gRmN, gRmName, gListedLen, gListed, d.curMetricFile, d.curMetricIdxFile, d.metricOut, d.idxOut
+//@ func (d *DefaultMetricLogWriter) Write(ts, items) err
+//@   props C17
+//@   requires d != nil && d.mux != nil
+//@   let sec = ts / 1000
+//@   let last0 = d.latestOpSec
+//@   let i0 = gIdxN
+//@   let l0 = gLinesN
+//@   ensures[no-items-nothing-written] len(items) == 0 ==> err == nil && gLinesN == l0 && gIdxN == i0 && d.latestOpSec == last0
+//@   ensures[stale-second-ignored] sec < last0 ==> gLinesN == l0 && gIdxN == i0 && d.latestOpSec == last0
+//@   ensures[lines-at-most-once] gLinesN == l0 || gLinesN == l0 + 1
+//@   ensures[index-before-the-lines-of-a-new-second] gLinesN == l0 + 1 && sec > last0 ==> gIdxN > i0 && sel(gIdxSec, i0) == sec && sel(gLinesIdxSeen, l0) > i0
+//@   ensures[same-second-no-index-before-its-lines] gLinesN == l0 + 1 && sec == last0 ==> sel(gLinesIdxSeen, l0) == i0
+//@   ensures[accepted-batch-is-written] err == nil && len(items) > 0 && sec >= last0 ==> gLinesN == l0 + 1 && d.latestOpSec == sec
+//@   ensures[latest-second-never-goes-back] d.latestOpSec >= last0 && (d.latestOpSec == last0 || d.latestOpSec == sec)
